@@ -75,6 +75,94 @@ class _Rename(ast.NodeTransformer):
         return fn
 
 
+class _Extract(ast.NodeTransformer):
+    """Hoist the first positional argument of the outermost call of a simple statement into a fresh temporary placed
+    just before the statement (evaluation order is unchanged: the callee expression is a plain name / attribute chain)."""
+    def __init__(self, every=1):
+        self.n = 0
+        self.k = 0
+        self.every = every
+
+    @staticmethod
+    def _plain(f):
+        while isinstance(f, ast.Attribute):
+            f = f.value
+        return isinstance(f, ast.Name)
+
+    def _process(self, body):
+        out = []
+        for st in body:
+            for arm in ("body", "orelse", "finalbody"):
+                sub = getattr(st, arm, None)
+                if isinstance(sub, list) and sub and isinstance(sub[0], ast.stmt) and not isinstance(st, (ast.FunctionDef, ast.ClassDef)):
+                    setattr(st, arm, self._process(sub))
+            for h in getattr(st, "handlers", []) or []:
+                h.body = self._process(h.body)
+            val = st.value if isinstance(st, (ast.Assign, ast.Return, ast.AugAssign)) else None
+            if isinstance(val, ast.Call) and self._plain(val.func) and val.args \
+                    and isinstance(val.args[0], (ast.BinOp, ast.Call, ast.Subscript)) \
+                    and not any(isinstance(x, (ast.Lambda, ast.Yield, ast.Await, ast.NamedExpr)) for x in ast.walk(val.args[0])):
+                self.k += 1
+                if self.k % self.every == 0:
+                    name = f"_tmp{self.n}"
+                    self.n += 1
+                    out.append(ast.Assign(targets=[ast.Name(id=name, ctx=ast.Store())], value=val.args[0], lineno=st.lineno, col_offset=st.col_offset))
+                    val.args[0] = ast.Name(id=name, ctx=ast.Load())
+            out.append(st)
+        return out
+
+    def visit_FunctionDef(self, fn):
+        self.generic_visit(fn)
+        fn.body = self._process(fn.body)
+        return fn
+
+
+class _InlineTemps(ast.NodeTransformer):
+    """`t = <call-free expression>` immediately followed by a simple statement that reads t exactly once, with t used
+    nowhere else in the function: the temporary is removed and its value written in place."""
+    def __init__(self):
+        self.n = 0
+
+    def visit_FunctionDef(self, fn):
+        self.generic_visit(fn)
+        counts = {}
+        for x in ast.walk(fn):
+            if isinstance(x, ast.Name):
+                counts[x.id] = counts.get(x.id, 0) + 1
+        fn.body = self._process(fn.body, counts)
+        return fn
+
+    def _process(self, body, counts):
+        out = []
+        i = 0
+        while i < len(body):
+            st = body[i]
+            for arm in ("body", "orelse", "finalbody"):
+                sub = getattr(st, arm, None)
+                if isinstance(sub, list) and sub and isinstance(sub[0], ast.stmt) and not isinstance(st, (ast.FunctionDef, ast.ClassDef)):
+                    setattr(st, arm, self._process(sub, counts))
+            nxt = body[i + 1] if i + 1 < len(body) else None
+            if isinstance(st, ast.Assign) and len(st.targets) == 1 and isinstance(st.targets[0], ast.Name) \
+                    and counts.get(st.targets[0].id) == 2 and not any(isinstance(x, (ast.Call, ast.Lambda, ast.ListComp, ast.GeneratorExp)) for x in ast.walk(st.value)) \
+                    and isinstance(nxt, (ast.Assign, ast.Return, ast.Expr)) and nxt.value is not None \
+                    and not any(isinstance(x, (ast.Lambda, ast.ListComp, ast.GeneratorExp, ast.IfExp, ast.BoolOp, ast.DictComp, ast.SetComp)) for x in ast.walk(nxt.value)):
+                name = st.targets[0].id
+                uses = [x for x in ast.walk(nxt.value) if isinstance(x, ast.Name) and x.id == name and isinstance(x.ctx, ast.Load)]
+                if len(uses) == 1:
+                    val = st.value
+
+                    class Sub(ast.NodeTransformer):
+                        def visit_Name(self, x):
+                            return val if x.id == name and isinstance(x.ctx, ast.Load) else x
+                    nxt.value = Sub().visit(nxt.value)
+                    self.n += 1
+                    i += 1
+                    continue
+            out.append(st)
+            i += 1
+        return out
+
+
 def generic_neutral(prog, rel):
     """(label, module text) variants of one file produced by generic behaviour-preserving operators."""
     out = []
@@ -93,6 +181,18 @@ def generic_neutral(prog, rel):
             r.visit_FunctionDef(node)
     if r.n:
         out.append((f"alpha-rename locals ({r.n} occurrences)", ast.unparse(t3)))
+    t4 = copy.deepcopy(tree)
+    e = _Extract()
+    t4 = e.visit(t4)
+    ast.fix_missing_locations(t4)
+    if e.n:
+        out.append((f"hoist {e.n} call arguments into temporaries", ast.unparse(t4)))
+    t5 = copy.deepcopy(tree)
+    it = _InlineTemps()
+    t5 = it.visit(t5)
+    ast.fix_missing_locations(t5)
+    if it.n:
+        out.append((f"inline {it.n} single-use temporaries", ast.unparse(t5)))
     # re-formatting: unparse / re-parse drops comments, blank lines and parentheses
     out.append(("reformat (ast round trip)", ast.unparse(tree)))
     return out
